@@ -136,6 +136,7 @@ type RawCfg struct {
 	RTTms         int    // peer answers this many virtual ms after receiving (0 = immediately)
 	Silent        int    // peer stays silent for this many timeouts at the start of the data phase
 	Close         string // none | shut (stack shuts down its write side after writing)
+	PTBDelayMs    int    // the ICMP message arrives this long after the segment was sent (default: like an ACK, RTTms)
 	PTB           int    // if >0: an ICMP "fragmentation needed" with this next-hop MTU is offered as a deviation (letter p)
 }
 
@@ -203,6 +204,8 @@ func ParseRawCfg(s string) RawCfg {
 			c.Close = v
 		case "ptb":
 			c.PTB = atoi()
+		case "ptbd":
+			c.PTBDelayMs = atoi()
 		}
 	}
 	return c
@@ -1069,8 +1072,21 @@ func (x *rawRun) deliverMenu(d *Decoded, f *Frame) []action {
 			if len(q) > 28 {
 				q = q[:28]
 			}
-			x.r.InjectIP(ref.ProtoICMP, ref.BuildICMPv4Error(3, 4, uint32(x.cfg.PTB), q))
-			x.pmtu = x.cfg.PTB
+			// the router's message takes as long as a segment's ACK would (it arrives while the
+			// retransmission timer of that segment is already running)
+			deliver := later
+			if x.cfg.PTBDelayMs > 0 {
+				deliver = func(nm string, send func()) {
+					x.pending = append(x.pending, pendingAck{due: vtime.Elapsed() + time.Duration(x.cfg.PTBDelayMs)*time.Millisecond, send: send, name: nm})
+				}
+			}
+			deliver("icmp-fragmentation-needed", func() {
+				x.r.w.mu.Lock()
+				x.ptbAt = len(x.r.w.All)
+				x.r.w.mu.Unlock()
+				x.r.InjectIP(ref.ProtoICMP, ref.BuildICMPv4Error(3, 4, uint32(x.cfg.PTB), q))
+				x.pmtu = x.cfg.PTB
+			})
 		}})
 	}
 	return m
